@@ -34,6 +34,11 @@ type half struct {
 func newHalf() *half {
 	h := &half{}
 	h.cond = sync.NewCond(&h.mu)
+	simrt.OnShutdown(func() {
+		h.mu.Lock()
+		h.cond.Broadcast()
+		h.mu.Unlock()
+	})
 	return h
 }
 
@@ -77,6 +82,23 @@ func (c *Conn) adopt() {
 	if s := simrt.Cur(); s != nil {
 		s.Adopt(c.AdoptAs)
 	}
+}
+
+// waitCond waits on the condition (mu held, as for Cond.Wait) and then parks
+// at a simulation point before going on: the goroutine that did the waking-up
+// (a writer, a closer, a deadline timer) is still running, and two tasks
+// running at once between simulation points would make the order of what
+// they do next (log lines, for a start) a matter of real-time scheduling.
+func waitCond(cond *sync.Cond, mu *sync.Mutex, site, res string) {
+	cond.Wait()
+	if simrt.Closing() {
+		simrt.ExitShutdown()
+	}
+	mu.Unlock()
+	// (re-locked even if the task is killed at the point: the caller's
+	// deferred Unlock stays balanced)
+	defer mu.Lock()
+	simrt.Point(site, res)
 }
 
 func (c *Conn) opErr(op string, err error) error {
@@ -125,7 +147,7 @@ func (c *Conn) Read(p []byte) (int, error) {
 		if !dl.IsZero() && !time.Now().Before(dl) {
 			return 0, c.opErr("read", timeoutErr{})
 		}
-		h.cond.Wait()
+		waitCond(h.cond, &h.mu, "net:read-woke", c.ID)
 	}
 }
 
@@ -180,7 +202,7 @@ func (c *Conn) Write(p []byte) (int, error) {
 		if !h.wdl.IsZero() && !time.Now().Before(h.wdl) {
 			return written, c.opErr("write", timeoutErr{})
 		}
-		h.cond.Wait()
+		waitCond(h.cond, &h.mu, "net:write-woke", c.ID)
 	}
 	return written, nil
 }
@@ -304,7 +326,7 @@ func (l *Listener) Accept() (net.Conn, error) {
 			l.queue = l.queue[1:]
 			return c, nil
 		}
-		l.cond.Wait()
+		waitCond(l.cond, &l.mu, "net:accept-woke", l.addr.String())
 	}
 }
 
@@ -364,6 +386,11 @@ func tcpAddr(hostport string) *net.TCPAddr {
 func (n *Net) Listen(addr string) *Listener {
 	l := &Listener{n: n, addr: tcpAddr(addr), key: addr}
 	l.cond = sync.NewCond(&l.mu)
+	simrt.OnShutdown(func() {
+		l.mu.Lock()
+		l.cond.Broadcast()
+		l.mu.Unlock()
+	})
 	n.mu.Lock()
 	n.listeners[addr] = l
 	n.mu.Unlock()
